@@ -184,8 +184,35 @@ def scratch_spec(family_dir):
     return d
 
 
-def tlc_mc(spec_dir, module, cfg_path, workers=8, timeout=1200, coverage=False):
-    """Exhaustive model check.  Returns dict(states, distinct, depth, ok, out)."""
+def tlc_mc(spec_dir, module, cfg_path, workers=8, timeout=1200, coverage=False, reuse=True):
+    """Exhaustive model check.  Returns dict(generated, distinct, depth, ok, out, reused).
+
+    The result is a pure function of the specification and the configuration (it does not depend on /repo), so
+    it is memoised under .cache/mc keyed by the hash of every .tla file of the spec directory and of the cfg;
+    `reused` says whether this invocation actually ran TLC."""
+    h = hashlib.sha256()
+    for f in sorted(glob.glob(os.path.join(spec_dir, "*.tla"))) + [cfg_path]:
+        h.update(os.path.basename(f).encode())
+        h.update(open(f, "rb").read())
+    h.update(module.encode())
+    memo = os.path.join(CACHE, "mc", h.hexdigest()[:32] + ".json")
+    if reuse and os.path.exists(memo):
+        try:
+            r = json.load(open(memo))
+            r["reused"] = True
+            return r
+        except Exception:
+            pass
+    r = _tlc_mc(spec_dir, module, cfg_path, workers, timeout, coverage)
+    r["reused"] = False
+    os.makedirs(os.path.dirname(memo), exist_ok=True)
+    with open(memo + ".tmp", "w") as f:
+        json.dump(r, f)
+    os.replace(memo + ".tmp", memo)
+    return r
+
+
+def _tlc_mc(spec_dir, module, cfg_path, workers, timeout, coverage):
     args = ["-workers", str(workers), "-config", cfg_path]
     if coverage:
         args += ["-coverage", "1"]
